@@ -41,6 +41,7 @@ FIXED = [
     ("regularisation anchor theta_0", ["C01"], "bandit theta_0 stayed attached to the parameter graph: parent and clone computed different updates (keys {NeuralUCB,NeuralTS}/clone/faithful/same-update)"),
     ("test() of the single-agent algorithms", ["C20"], "test() passed batched actions to unvectorised envs (keys train_*/<Algo>/env-rejected-action@<algo>.test)"),
     ("architecture mutations keep the buffers", ["C04"], "BatchNorm buffers reset by every mutation, even a blocked one (keys {EvolvableCNN,EvolvableResNet}/batchnorm-buffer/same-shape/not-preserved, unchanged-architecture/outputs-differ/eval/lost=batchnorm-buffer)"),
+    ("keep evaluation-mode actions inside", ["C14"], "MADDPG/MATD3 evaluation-mode actions overshoot bounds that are not exactly representable (keys {MADDPG,MATD3}/get_action/eval/out-of-bounds/asymmetric-bounds/dim*)"),
     ("masked logits are pushed below", ["C14"], "masked logits at -1e8 beat allowed logits at -1e9 (keys {PPO,IPPO}/get_action/masked-action-returned/*/allowed-logits-all--1e9)"),
 ]
 
@@ -48,8 +49,10 @@ ROOT = [
     ("C05", "TS/real/copy-differs-from-source/architecture/encoder_activation_output", "EvolvableNetwork built from a partial encoder_config without 'activation' gets an Identity encoder output activation, but its init_dict rebuilds (clone, target re-creation) with ReLU: networks/base.py output_activation defaulting"),
     ("C06", "rl_hp/lr/optimizer-registered-under-wrong-lr-name", "OptimizerWrapper._infer_lr_name matches learning rates by object identity: when lr_actor and lr_critic are the same float object the critic optimizers are registered under lr_actor"),
     ("C16", "", "squash_output family: TorchDistribution.log_prob re-evaluates with the pre-squash value of the last sample; scale_action cannot take numpy arrays (eval mode); IPPO calls .cpu() on a None entropy; net_config squash_output is forwarded to ValueNetwork"),
+    ("C14", "IPPO/get_action/masked-action-returned", "IPPO.extract_action_masks collects the masks in the key order of the infos dict while observations are batched in agent order: with infos listing the agents in another order a masked action can be sampled (same family as C15's IPPO agent-order finding)"),
     ("C14", "", "squash_output family (see C16): PPO/IPPO get_action in eval mode with squash_output raises; IPPO training mode with squash_output hits entropy None"),
     ("C15", "DQN/get_action/batch", "get_action never puts networks in eval mode and the CNN 'layer_norm' is BatchNorm2d: results for one observation depend on the other rows of the batch"),
+    ("C15", "PPO-box/get_action/batch", "get_action never puts networks in eval mode and the CNN 'layer_norm' is BatchNorm2d: results for one observation depend on the other rows of the batch"),
     ("C15", "PPO/get_action/batch", "get_action never puts networks in eval mode and the CNN 'layer_norm' is BatchNorm2d: results for one observation depend on the other rows of the batch"),
     ("C15", "IPPO/get_action/agent", "IPPO concatenates observations in dict order but reshapes outputs with the total number of homogeneous agents: agent re-ordering / subsets give wrong rows or raise"),
     ("C15", "disassemble_homogeneous_outputs", "assemble/disassemble_homogeneous_outputs assume every homogeneous agent is present (agent subsets)"),
